@@ -176,7 +176,9 @@ def final_checks(ctx: Ctx, m: Monitor, bio):
             for u in ref.map[v.name].bonds:
                 if res.has_atom(u) and not res.get_atom(u).added:
                     bonded_dist = max(bonded_dist, abs(dist(v.coords, res.get_atom(u).coords) - dist(ref.map[v.name].coords, ref.map[u].coords)))
-        tolres = min(tolres, max(0.25, 2.0 * bonded_dist))
+        # a hydrogen built by rotating an input hydrogen inherits that hydrogen's bond length: the
+        # distortion among bonded input atoms (input hydrogens included) is part of the allowance
+        tolres = min(max(tolres, bonded_dist + 1e-3), max(0.25, 2.0 * bonded_dist))
         for a in res.atoms:
             if not a.added or id(a) in m.flip_alias or a.name not in ref.map:
                 continue
